@@ -106,12 +106,12 @@ def parseMechTok (w : String) : Option (Nat × MParam) :=
         let as := ((args.dropEnd 1).toString.splitOn ",")
         let hexLen (x : String) : Nat := ((parseHex x).getD []).length
         let num (x : String) : Nat := (parseNat? x).getD 0
-        if kind == "gcm" then pure (mech, { present := true, kind := kind, len := hexLen (as.getD 0 "."), nums := [hexLen (as.getD 0 "."), hexLen (as.getD 1 "."), num (as.getD 2 "0")] })
+        if kind == "gcm" then pure (mech, { present := true, kind := kind, len := hexLen (as.getD 0 "."), nums := [hexLen (as.getD 0 "."), hexLen (as.getD 1 "."), num (as.getD 2 "0")], raw := [(parseHex (as.getD 0 ".")).getD [], (parseHex (as.getD 1 ".")).getD []] })
         else if kind == "ctr" then
           -- counter value: the low `bits` bits of the 16-byte block (big endian)
           let cb := ((parseHex (as.getD 1 ".")).getD []) ++ List.replicate 16 (0 : UInt8)
           let v := (cb.take 16).foldl (fun acc b => acc * 256 + b.toNat) 0
-          pure (mech, { present := true, kind := kind, nums := [num (as.getD 0 "0"), v] })
+          pure (mech, { present := true, kind := kind, nums := [num (as.getD 0 "0"), v], raw := [[], cb.take 16] })
         else pure (mech, { present := true, kind := kind, nums := as.map num, raw := as.map fun x => (parseHex x).getD [] })
       | _ => none
   | _ => none
